@@ -33,7 +33,9 @@ Record sstate := {
   s_conn : bool;
   s_out : list (N * N);             (* outstanding: (deferred, tid observed on the wire), oldest first *)
   s_exp : list (N * outcome);       (* firings the property demands so far *)
-  s_distinct : bool }.              (* every request so far went out with a tid no outstanding request had *)
+  s_distinct : bool;                (* every request so far went out with a tid no outstanding request had *)
+  s_rerr : list N;                  (* deferreds whose errback issues a new request *)
+  s_rcb : list N }.                 (* deferreds whose callback issues a new request *)
 
 Fixpoint take_tid (out : list (N * N)) (tid : N) : option (N * list (N * N)) :=
   match out with
@@ -42,43 +44,69 @@ Fixpoint take_tid (out : list (N * N)) (tid : N) : option (N * list (N * N)) :=
                    else match take_tid r tid with Some (x, r') => Some (x, (d, t) :: r') | None => None end
   end.
 
-Definition spec_frame (v : variant) (s : sstate) (fr : N * N * N) : sstate :=
+Definition s_with (s : sstate) (alloc : N) (conn : bool) (out : list (N * N)) (exp : list (N * outcome))
+                  (dist : bool) : sstate :=
+  {| s_alloc := alloc; s_conn := conn; s_out := out; s_exp := exp; s_distinct := dist;
+     s_rerr := s_rerr s; s_rcb := s_rcb s |}.
+
+(* a request is issued: connected -> outstanding; not connected -> it must fail at once *)
+Definition spec_exec (sent : list (N * N)) (s : sstate) : sstate :=
+  let d := s_alloc s + 1 in
+  match sent_tid sent d with
+  | None => s_with s d (s_conn s) (s_out s) (s_exp s) false
+  | Some t =>
+      let fresh := negb (existsb (fun p => N.eqb (snd p) t) (s_out s)) in
+      if s_conn s
+      then s_with s d true (s_out s ++ [(d, t)]) (s_exp s) (s_distinct s && fresh)
+      else s_with s d false (s_out s) (s_exp s ++ [(d, OErr ConnectionExc)]) (s_distinct s)
+  end.
+
+(* deferred d must fire with o; if the user code attached to it issues a request, that request is
+   issued right then, under the connection state of that moment *)
+Definition spec_fire (sent : list (N * N)) (s : sstate) (d : N) (o : outcome) : sstate :=
+  let s1 := s_with s (s_alloc s) (s_conn s) (s_out s) (s_exp s ++ [(d, o)]) (s_distinct s) in
+  if match o with OErr _ => memN d (s_rerr s) | OCb _ _ => memN d (s_rcb s) end
+  then spec_exec sent s1 else s1.
+
+Definition spec_exec_k (sent : list (N * N)) (s : sstate) (re rc : bool) : sstate :=
+  let d := s_alloc s + 1 in
+  let s0 := {| s_alloc := s_alloc s; s_conn := s_conn s; s_out := s_out s; s_exp := s_exp s;
+               s_distinct := s_distinct s;
+               s_rerr := if re then s_rerr s ++ [d] else s_rerr s;
+               s_rcb := if rc then s_rcb s ++ [d] else s_rcb s |} in
+  if s_conn s0 then spec_exec sent s0
+  else match sent_tid sent d with
+       | None => s_with s0 d false (s_out s0) (s_exp s0) false
+       | Some _ => spec_fire sent (s_with s0 d false (s_out s0) (s_exp s0) (s_distinct s0)) d (OErr ConnectionExc)
+       end.
+
+Definition spec_frame (v : variant) (sent : list (N * N)) (s : sstate) (fr : N * N * N) : sstate :=
   let '(_, tid, rid) := fr in
   let hit := match v with
              | VDict => take_tid (s_out s) tid            (* the request that carried this tid *)
              | VFifo => match s_out s with (d, _) :: r => Some (d, r) | [] => None end
              end in                                      (* serial line: replies come in request order *)
   match hit with
-  | Some (d, out') => {| s_alloc := s_alloc s; s_conn := s_conn s; s_out := out';
-                         s_exp := s_exp s ++ [(d, OCb tid rid)]; s_distinct := s_distinct s |}
+  | Some (d, out') => spec_fire sent (s_with s (s_alloc s) (s_conn s) out' (s_exp s) (s_distinct s)) d (OCb tid rid)
   | None => s                                            (* unsolicited / duplicate: dropped *)
   end.
 
 Definition spec_step (v : variant) (sent : list (N * N)) (s : sstate) (o : aop) : sstate :=
   match o with
-  | Execute =>
-      let d := s_alloc s + 1 in
-      match sent_tid sent d with
-      | None => {| s_alloc := d; s_conn := s_conn s; s_out := s_out s; s_exp := s_exp s; s_distinct := false |}
-      | Some t =>
-          let fresh := negb (existsb (fun p => N.eqb (snd p) t) (s_out s)) in
-          if s_conn s
-          then {| s_alloc := d; s_conn := true; s_out := s_out s ++ [(d, t)]; s_exp := s_exp s;
-                  s_distinct := s_distinct s && fresh |}
-          else {| s_alloc := d; s_conn := false; s_out := s_out s;
-                  s_exp := s_exp s ++ [(d, OErr ConnectionExc)]; s_distinct := s_distinct s |}
-      end
-  | Segment frames => fold_left (spec_frame v) frames s
-  | Lost => {| s_alloc := s_alloc s; s_conn := false; s_out := [];
-               s_exp := s_exp s ++ map (fun p => (fst p, OErr ConnectionExc)) (s_out s);
-               s_distinct := s_distinct s |}
-  | Made => {| s_alloc := s_alloc s; s_conn := true; s_out := s_out s; s_exp := s_exp s; s_distinct := s_distinct s |}
-  | Skip n => {| s_alloc := s_alloc s + n; s_conn := s_conn s; s_out := s_out s; s_exp := s_exp s; s_distinct := s_distinct s |}
+  | Execute => spec_exec sent s
+  | ExecuteE => spec_exec_k sent s true false
+  | ExecuteC => spec_exec_k sent s false true
+  | Segment frames => fold_left (spec_frame v sent) frames s
+  | Lost =>     (* the connection is gone: every outstanding request fails with a connection error *)
+      fold_left (fun s' p => spec_fire sent s' (fst p) (OErr ConnectionExc)) (s_out s)
+                (s_with s (s_alloc s) false [] (s_exp s) (s_distinct s))
+  | Made => s_with s (s_alloc s) true (s_out s) (s_exp s) (s_distinct s)
+  | Skip n => s_with s (s_alloc s + n) (s_conn s) (s_out s) (s_exp s) (s_distinct s)
   end.
 
 Definition spec_run (v : variant) (sent : list (N * N)) (ops : list aop) : sstate :=
   fold_left (spec_step v sent) ops
-    {| s_alloc := 0; s_conn := false; s_out := []; s_exp := []; s_distinct := true |}.
+    {| s_alloc := 0; s_conn := false; s_out := []; s_exp := []; s_distinct := true; s_rerr := []; s_rcb := [] |}.
 
 Definition count_fired (x : N * outcome) (l : list (N * outcome)) : nat :=
   length (filter (fired_eqb x) l).
